@@ -376,4 +376,28 @@ HasPtr(ps) ==
 \* types whose RDATA a decode/encode cycle must reproduce octet for octet (no compressible names;
 \* OPT is excluded: the order of options is not significant)
 BytePreserved(code) == code \notin {2, 5, 6, 12, 15, 41, 65305, 250}
+
+---------------------------------------------------------------------------
+(* The list-valued RDATA (EDNS options, SVCB parameters, TXT strings, NSEC windows) as item lists: *)
+(* the inputs of the loop machine TlvLoop, unfolded for its four carriers.                          *)
+
+Carriers == {"opt", "svc", "txt", "win"}
+CarrierCode(c) == CASE c = "opt" -> 41 [] c = "svc" -> 64 [] c = "txt" -> 16 [] c = "win" -> 47
+CarrierHdr(c)  == CASE c = "opt" -> 4 [] c = "svc" -> 4 [] c = "txt" -> 1 [] c = "win" -> 2
+
+TlvItem(c, i, it) ==
+    CASE c = "opt" -> <<U(2, 65000 + i), L(2, it.d, <<B(it.len, 0)>>)>>
+      [] c = "svc" -> <<U(2, 65000 + i), L(2, it.d, <<B(it.len, 0)>>)>>
+      [] c = "txt" -> <<L(1, it.d, <<B(it.len, 97)>>)>>
+      [] c = "win" -> <<U(1, i - 1), L(1, it.d, <<B(it.len, 1)>>)>>
+TlvLead(c) == CASE c = "svc" -> <<U(2, 1), N("root")>> [] c = "win" -> <<N("plain")>> [] OTHER -> <<>>
+TlvPrims(c, items, stray) ==
+    TlvLead(c) \o Flat([i \in 1..Len(items) |-> TlvItem(c, i, items[i])]) \o (IF stray = 0 THEN <<>> ELSE <<B(stray, 0)>>)
+
+\* honest lists are well-formed (a window needs 1..32 octets; an empty list leaves no RDATA for TXT / OPT,
+\* and an NSEC without windows is debatable)
+TlvMust(c, items, stray, ctx) ==
+    /\ stray = 0 /\ items # <<>>
+    /\ \A i \in 1..Len(items) : items[i].d = 0 /\ (c = "win" => items[i].len >= 1)
+    /\ CtxOk(CarrierCode(c), ctx)
 =============================================================================
